@@ -85,11 +85,16 @@ def root_of(shape, c):
 
 
 class Hier(object):
-    """the real classes of one tree shape, on a private connection and a private class registry"""
+    """the real classes of one tree shape on a private class registry: `conn` is the classes'
+    default connection (in-memory, or file-backed when transactions must be isolated from it),
+    `conn2` a second, independent in-memory database whose tables were created with
+    `createTable(connection=conn2)`; `R` is a plain SQLObject class holding foreign keys to the
+    hierarchy's classes: `r<a>` cascade=False (root classes only), `n<a>` cascade='null',
+    `c<a>` cascade=True."""
 
-    def __init__(self, shape):
+    def __init__(self, shape, filedb=False):
         sqlo.setup()
-        from sqlobject import IntCol
+        from sqlobject import IntCol, ForeignKey, SQLObject
         from sqlobject.inheritance import InheritableSQLObject
         from sqlobject.sqlite.sqliteconnection import SQLiteConnection
 
@@ -102,7 +107,13 @@ class Hier(object):
                 return SQLiteConnection._executeRetry(self, conn, cursor, query)
 
         self.shape = shape
-        self.conn = LogConn(':memory:')
+        if filedb:
+            _counter[0] += 1
+            self.conn = LogConn(os.path.join(scratch_dir(), 'c15_%d.db' % _counter[0]), timeout=0.3)
+        else:
+            self.conn = LogConn(':memory:')
+        self.conn2 = LogConn(':memory:')
+        self.tx = None
         _counter[0] += 1
         self.reg = 'c15reg%d' % _counter[0]
         self.classes = []
@@ -119,27 +130,64 @@ class Hier(object):
             cls = type(name, (base,), ns)
             self.classes.append(cls)
             self.names.append(name)
-        for cls in self.classes:
+        ns = {'_connection': self.conn, 'sqlmeta': type('sqlmeta', (), {'registry': self.reg})}
+        self.refcols = []
+        for c, (par, ncols, inh) in enumerate(shape):
+            if par is None:
+                ns['r%d' % c] = ForeignKey('K%d' % c, cascade=False, default=None)
+                self.refcols.append(('r', c))
+            ns['n%d' % c] = ForeignKey('K%d' % c, cascade='null', default=None)
+            ns['c%d' % c] = ForeignKey('K%d' % c, cascade=True, default=None)
+            self.refcols += [('n', c), ('c', c)]
+        self.R = type('R', (SQLObject,), ns)
+        for cls in self.classes + [self.R]:
             cls.createTable()
+            cls.createTable(connection=self.conn2)
         self.idx = dict((n, k) for k, n in enumerate(self.names))
         self.tables = [str(cls.sqlmeta.table) for cls in self.classes]
         self.tidx = dict((t, k) for k, t in enumerate(self.tables))
+        self.rtable = str(self.R.sqlmeta.table)
+
+    # k = 0: the default database (through the open transaction if there is one); k = 1: the second one
+    def cx(self, k):
+        """the `connection=` argument for operations on database k (None = the classes' default)"""
+        return self.conn2 if k == 1 else self.tx
+
+    def q(self, k):
+        return self.conn2 if k == 1 else (self.tx or self.conn)
+
+    def logc(self, k):
+        return self.conn2 if k == 1 else self.conn
+
+    def clear_caches(self):
+        self.conn.cache.clear()
+        self.conn2.cache.clear()
+        if self.tx is not None:
+            self.tx.cache.clear()
 
     def reset(self):
-        for t in self.tables:
-            self.conn.query('DELETE FROM %s' % t)
-        self.conn.query('DELETE FROM sqlite_sequence')
-        self.conn.cache.clear()
+        if self.tx is not None:
+            try:
+                self.tx.rollback()
+            except Exception:
+                pass
+            self.tx = None
+        for conn in (self.conn, self.conn2):
+            for t in self.tables + [self.rtable]:
+                conn.query('DELETE FROM %s' % t)
+            conn.query('DELETE FROM sqlite_sequence')
+            conn.cache.clear()
 
-    def raw(self):
+    def raw(self, k=0):
         """{class index: {id: (childName index | None | 'BAD:x', (vals...))}} by raw SELECTs"""
         out = {}
+        q = self.q(k)
         for c, cls in enumerate(self.classes):
             ncols = self.shape[c][1]
-            cols = ['id'] + ['v%dk%d' % (c, k) for k in range(ncols)]
+            cols = ['id'] + ['v%dk%d' % (c, k2) for k2 in range(ncols)]
             if self.shape[c][2]:
                 cols.append('child_name')
-            rows = self.conn.queryAll('SELECT %s FROM %s ORDER BY id' % (', '.join(cols), self.tables[c]))
+            rows = q.queryAll('SELECT %s FROM %s ORDER BY id' % (', '.join(cols), self.tables[c]))
             d = {}
             for r in rows:
                 child = None
@@ -150,11 +198,35 @@ class Hier(object):
             out[c] = d
         return out
 
+    def blocked_levels(self, k, i):
+        """levels whose row `i` is referenced through a cascade=False key (raw SELECT on R's table)"""
+        out = []
+        for pol, c in self.refcols:
+            if pol == 'r':
+                n = self.q(k).queryAll('SELECT COUNT(*) FROM %s WHERE r%d_id = %d' % (self.rtable, c, i))[0][0]
+                if n:
+                    out.append(c)
+        return out
 
-def hier_for(shape):
-    key = json.dumps(shape)
+
+_scratch = []
+
+
+def scratch_dir():
+    if not _scratch:
+        import atexit
+        import shutil
+        import tempfile
+        d = tempfile.mkdtemp(prefix='c15_')
+        _scratch.append(d)
+        atexit.register(lambda: shutil.rmtree(d, ignore_errors=True))
+    return _scratch[0]
+
+
+def hier_for(shape, filedb=False):
+    key = json.dumps([shape, filedb])
     if key not in _hiers:
-        _hiers[key] = Hier(shape)
+        _hiers[key] = Hier(shape, filedb)
     return _hiers[key]
 
 
@@ -189,6 +261,12 @@ def op_line(op):
         return 'select %d %s' % (op[1], fmt_filter(op[2]))
     if t == 'selectby':
         return 'selectby %d' % op[1] + ''.join(' %d:%d:%d' % (a, k, v) for a, k, v in op[2])
+    if t == 'conn':
+        return 'conn %d' % op[1]
+    if t in ('begin', 'rollback', 'commit'):
+        return t
+    if t == 'addref':
+        return 'addref %s %d %d' % (op[1], op[2], op[3])
     if t == 'deletemany':
         return 'bulkdel %d %s' % (op[1], fmt_filter(op[2]))
     if t == 'deleteby':
@@ -272,23 +350,24 @@ def stmt_tables(h, stmts, verb):
     return out
 
 
-def view_of(h, i):
-    """what every entry level shows for id i: (string in the driver's format, structured)"""
+def view_of(h, i, k=0):
+    """what every entry level shows for id i on database k: (string in the driver's format, structured)"""
     parts = []
     struct = []
+    cx = h.cx(k)
     for e, cls in enumerate(h.classes):
         try:
-            o = cls.get(i)
+            o = cls.get(i, connection=cx)
             m = h.idx.get(type(o).__name__, -1)
             vals = []
             for a in reversed(anc(h.shape, m)) if m >= 0 else []:
-                for k in range(h.shape[a][1]):
+                for k2 in range(h.shape[a][1]):
                     try:
-                        v = getattr(o, 'v%dk%d' % (a, k))
-                        vals.append((a, k, v, 'val %s' % (v,)))
+                        v = getattr(o, 'v%dk%d' % (a, k2))
+                        vals.append((a, k2, v, 'val %s' % (v,)))
                     except Exception as ex:
-                        vals.append((a, k, None, exc(ex)))
-            parts.append('%d=%d[%s]' % (e, m, ','.join('%d.%d=%s' % (a, k, s) for a, k, _, s in vals)))
+                        vals.append((a, k2, None, exc(ex)))
+            parts.append('%d=%d[%s]' % (e, m, ','.join('%d.%d=%s' % (a, k2, s) for a, k2, _, s in vals)))
             struct.append((e, m, vals))
         except Exception as ex:
             parts.append('%d=%s' % (e, exc(ex)))
@@ -296,68 +375,90 @@ def view_of(h, i):
     return 'views ' + ' '.join(parts), struct
 
 
-def run_op(h, op):
-    """execute one op on the real code; returns the answer in the driver's format"""
+def run_op(h, op, k=0):
+    """execute one op on the real code, on database k (k = 1: every call gets `connection=conn2`;
+    k = 0: the default connection, or the open transaction); returns the answer in the driver's format"""
     t = op[0]
-    conn = h.conn
+    conn = h.logc(k)
+    cx = h.cx(k)
     try:
         if t == 'create':
             cls = h.classes[op[1]]
-            kw = dict(('v%dk%d' % (a, k), v) for a, k, v in op[2])
+            kw = dict(('v%dk%d' % (a, k2), v) for a, k2, v in op[2])
+            if cx is not None:
+                kw['connection'] = cx
             conn.stmts = []
             try:
                 o = cls(**kw)
             finally:
                 stmts, conn.stmts = conn.stmts, None
             return 'id %d ins%s' % (o.id, ''.join(' %d' % c for c in stmt_tables(h, stmts, 'INSERT INTO')))
+        if t == 'addref':
+            kw = {'%s%dID' % ({'restrict': 'r', 'null': 'n', 'cascade': 'c'}[op[1]], op[2]): op[3]}
+            if cx is not None:
+                kw['connection'] = cx
+            h.R(**kw)
+            return 'ok'
         if t == 'get':
-            o = h.classes[op[1]].get(op[2])
+            o = h.classes[op[1]].get(op[2], connection=cx)
             return 'ok %d' % h.idx.get(type(o).__name__, -1)
         if t == 'read':
-            o = h.classes[op[1]].get(op[2])
+            o = h.classes[op[1]].get(op[2], connection=cx)
             return 'val %s' % (getattr(o, 'v%dk%d' % (op[3], op[4])),)
         if t == 'write':
-            o = h.classes[op[1]].get(op[2])
+            o = h.classes[op[1]].get(op[2], connection=cx)
             setattr(o, 'v%dk%d' % (op[3], op[4]), op[5])
             return 'ok'
         if t == 'set':
-            o = h.classes[op[1]].get(op[2])
-            o.set(**dict(('v%dk%d' % (a, k), v) for a, k, v in op[3]))
+            o = h.classes[op[1]].get(op[2], connection=cx)
+            o.set(**dict(('v%dk%d' % (a, k2), v) for a, k2, v in op[3]))
             return 'ok'
         if t == 'destroy':
-            o = h.classes[op[1]].get(op[2])
+            o = h.classes[op[1]].get(op[2], connection=cx)
             conn.stmts = []
+            res = 'ok'
             try:
                 o.destroySelf()
+            except Exception as ex:
+                res = exc(ex)
             finally:
                 stmts, conn.stmts = conn.stmts, None
-            return 'ok del%s' % ''.join(' %d' % c for c in stmt_tables(h, stmts, 'DELETE FROM'))
+            return '%s del%s' % (res, ''.join(' %d' % c for c in stmt_tables(h, stmts, 'DELETE FROM')))
         if t == 'select':
             cls = h.classes[op[1]]
-            res = list(cls.select(build_clause(h, op[1], op[2])))
+            res = list(cls.select(build_clause(h, op[1], op[2]), connection=cx))
             # the clause is patched in place by select(): build a fresh one for count()
-            cnt = cls.select(build_clause(h, op[1], op[2])).count()
+            cnt = cls.select(build_clause(h, op[1], op[2]), connection=cx).count()
             return 'sel' + ''.join(' %d:%d' % (i, m) for i, m in
                                    sorted((o.id, h.idx.get(type(o).__name__, -1)) for o in res)) + \
                 ('' if cnt == len(res) else ' count()=%d' % cnt)
         if t == 'selectby':
             cls = h.classes[op[1]]
-            kw = dict(('v%dk%d' % (a, k), v) for a, k, v in op[2])
-            res = list(cls.selectBy(**kw))
-            cnt = cls.selectBy(**kw).count()
+            kw = dict(('v%dk%d' % (a, k2), v) for a, k2, v in op[2])
+            res = list(cls.selectBy(connection=cx, **kw))
+            cnt = cls.selectBy(connection=cx, **kw).count()
             return 'sel' + ''.join(' %d:%d' % (i, m) for i, m in
                                    sorted((o.id, h.idx.get(type(o).__name__, -1)) for o in res)) + \
                 ('' if cnt == len(res) else ' count()=%d' % cnt)
         if t == 'deletemany':
             cls = h.classes[op[1]]
-            clause = build_clause(h, op[1], op[2])
-            if clause is None:
-                cls.deleteMany(where=None)
-            else:
-                cls.deleteMany(where=clause)
+            cls.deleteMany(where=build_clause(h, op[1], op[2]), connection=cx)
             return 'ok'
         if t == 'deleteby':
-            h.classes[op[1]].deleteBy(**dict(('v%dk%d' % (a, k), v) for a, k, v in op[2]))
+            h.classes[op[1]].deleteBy(connection=cx, **dict(('v%dk%d' % (a, k2), v) for a, k2, v in op[2]))
+            return 'ok'
+        if t == 'begin':
+            h.tx = h.conn.transaction()
+            return 'ok'
+        if t == 'rollback':
+            tx, h.tx = h.tx, None
+            tx.rollback()
+            h.conn.cache.clear()
+            return 'ok'
+        if t == 'commit':
+            tx, h.tx = h.tx, None
+            tx.commit(close=True)
+            h.conn.cache.clear()
             return 'ok'
     except Exception as ex:
         conn.stmts = None
@@ -625,58 +726,108 @@ def _oracle_views(shape, raw, i, struct):
 def run_case(shape, ops, cold=False, view_extra=None):
     """run a history on the real code.  returns (lines for the model, impl answers aligned with the
     lines (None for the tree line), oracle failures [(step, kind, text)]).
-    cold: the connection's instance cache is emptied before every operation and before every
+    cold: the connections' instance caches are emptied before every operation and before every
     fetch of the views (every get is a cache miss: SELECT + childName dispatch + _parent fetch);
-    otherwise parent- and child-level instances stay cached across the whole history."""
-    h = hier_for(shape)
+    otherwise parent- and child-level instances stay cached across the whole history.
+    Histories with `conn` / `begin` ops use two databases: every level's table is dumped on BOTH
+    after every step (the one not addressed must not change), a transaction runs on a file-backed
+    default database so that what bypasses it is committed independently."""
+    multi = any(op[0] in ('conn', 'begin') for op in ops)
+    h = hier_for(shape, filedb=any(op[0] == 'begin' for op in ops))
     h.reset()
     lines = [tree_line(shape)]
     impl = [None]
     fails = []
-    before = h.raw()
-    inv0 = check_invariant(shape, before)
-    allocated = set()
+    cur = 0
+    state = {0: h.raw(0), 1: h.raw(1)}
+    inv0 = check_invariant(shape, state[0])
+    allocated = {0: set(), 1: set()}
     for step, op in enumerate(ops):
         if cold:
-            h.conn.cache.clear()
-        ans = run_op(h, op)
-        after = h.raw()
-        lines.append(op_line(op))
-        impl.append(ans)
-        lines.append('dump')
-        impl.append(fmt_dump(after))
+            h.clear_caches()
+        t = op[0]
+        if t == 'conn':
+            if h.tx is not None:
+                continue
+            cur = op[1]
+            lines.append(op_line(op))
+            impl.append('ok')
+            continue
+        if t == 'begin' and (cur != 0 or h.tx is not None):
+            continue
+        if t in ('rollback', 'commit') and h.tx is None:
+            continue
+        before = state[cur]
+        line = op_line(op)
+        if t == 'destroy':
+            bl = h.blocked_levels(cur, op[2])
+            if bl:
+                line = 'destroyb %d %d%s' % (op[1], op[2], ''.join(' %d' % a for a in bl))
+        ans = run_op(h, op, cur)
+        after = h.raw(cur)
+        state[cur] = after
+        if t != 'addref':
+            lines.append(line)
+            impl.append(ans)
+            lines.append('dump')
+            impl.append(fmt_dump(after))
+        elif before != after:
+            fails.append((step, 'reference-changes-rows', 'creating a referencing row changed the hierarchy tables'))
         for kind, text in oracle_step(shape, op, ans, before, after):
             fails.append((step, kind, text))
+        if multi:
+            o = 1 - cur
+            other = h.raw(o)
+            if other != state[o]:
+                fails.append((step, 'other-database-changed', '%s on database %d changed the tables of database %d'
+                              % (op_line(op), cur, o)))
+            for kind, text in check_invariant(shape, other):
+                fails.append((step, kind, 'database %d: %s' % (o, text)))
+            state[o] = other
+            lines += ['conn %d' % o, 'dump', 'conn %d' % cur]
+            impl += ['ok', fmt_dump(other), 'ok']
         ids = []
         m = re.match(r'id (\d+) ', ans)
         if m:
             ids.append(int(m.group(1)))
-            allocated.add(int(m.group(1)))
+            allocated[cur].add(int(m.group(1)))
         if touched(op) is not None:
             ids.append(touched(op))
-        if view_extra is not None and allocated:
-            x = view_extra(sorted(allocated))
+        if view_extra is not None and allocated[cur]:
+            x = view_extra(sorted(allocated[cur]))
             if x not in ids:
                 ids.append(x)
         for i in ids:
             if cold:
-                h.conn.cache.clear()
-            s, struct = view_of(h, i)
+                h.clear_caches()
+            s, struct = view_of(h, i, cur)
             lines.append('views %d' % i)
             impl.append(s)
             for kind, text in oracle_views(shape, after, i, struct):
                 fails.append((step, kind, text))
-        before = after
-    # at the end: every id ever allocated (and one never allocated) through every level
-    for i in sorted(allocated) + [max(allocated or [0]) + 1]:
-        s, struct = view_of(h, i)
-        lines.append('views %d' % i)
-        impl.append(s)
-        for kind, text in oracle_views(shape, before, i, struct):
+    if h.tx is not None:  # a history that ends inside a transaction: roll it back
+        run_op(h, ['rollback'], 0)
+        lines.append('rollback')
+        impl.append('ok')
+        state[0] = h.raw(0)
+        lines.append('dump')
+        impl.append(fmt_dump(state[0]))
+        for kind, text in check_invariant(shape, state[0]):
             fails.append((len(ops), kind, text))
-    after = h.raw()
-    if after != before:
-        fails.append((len(ops), 'read-changes-rows', 'fetching through every level changed the tables'))
+    # at the end: every id ever allocated (and one never allocated) through every level
+    for k in ((0, 1) if multi else (0,)):
+        if multi:
+            lines.append('conn %d' % k)
+            impl.append('ok')
+        for i in sorted(allocated[k]) + [max(allocated[k] or [0]) + 1]:
+            s, struct = view_of(h, i, k)
+            lines.append('views %d' % i)
+            impl.append(s)
+            for kind, text in oracle_views(shape, state[k], i, struct):
+                fails.append((len(ops), kind, text))
+        after = h.raw(k)
+        if after != state[k]:
+            fails.append((len(ops), 'read-changes-rows', 'fetching through every level changed the tables'))
     for kind, text in inv0:
         fails.append((-1, kind, text))
     return lines, impl, fails
@@ -730,16 +881,54 @@ def gen_filter(rng, shape, c, depth=0):
     return [rng.choice(['and', 'or']), gen_filter(rng, shape, c, depth + 1), gen_filter(rng, shape, c, depth + 1)]
 
 
-def gen_history(rng, shape, nops):
+def gen_history(rng, shape, nops, flavour='plain'):
+    """flavour: 'plain' | 'refs' (rows of another class reference levels of the objects; destroys
+    refused by a cascade=False reference to the root level) | 'two' (ops switch between the default
+    database and a second one given as connection=) | 'tx' (ops inside transactions on the default
+    database, rolled back or committed); 'two' and 'tx' also get some references"""
+    import copy
     n = len(shape)
-    live = {}      # (root, id) -> class
-    dead = []
-    hi = {}
+    sims = dict((k, {'live': {}, 'dead': [], 'hi': {}, 'restricted': set()}) for k in (0, 1))
+    cur = 0
+    in_tx = False
+    saved = None
+    refs = flavour == 'refs' or (flavour in ('two', 'tx') and rng.random() < 0.4)
     ops = []
     for step in range(nops):
+        S = sims[cur]
+        live, dead, hi, restricted = S['live'], S['dead'], S['hi'], S['restricted']  # (root, id) -> class, ...
+        if flavour == 'two' and rng.random() < 0.15:
+            cur = 1 - cur
+            ops.append(['conn', cur])
+            continue
+        if flavour == 'tx':
+            if not in_tx and rng.random() < 0.15:
+                saved = copy.deepcopy(sims[0])
+                in_tx = True
+                ops.append(['begin'])
+                continue
+            if in_tx and rng.random() < 0.15:
+                in_tx = False
+                if rng.random() < 0.6:
+                    sims[0] = saved
+                    ops.append(['rollback'])
+                else:
+                    ops.append(['commit'])
+                continue
+        if refs and live and rng.random() < 0.09:
+            (root, i), m = rng.choice(sorted(live.items()))
+            q = rng.random()
+            if q < 0.4:
+                ops.append(['addref', 'restrict', root, i])
+                restricted.add((root, i))
+            else:
+                ops.append(['addref', 'null' if q < 0.7 else 'cascade', rng.choice(anc(shape, m)), i])
+            continue
         r = rng.random()
         if not live and r < 0.7:
             r = 0.0
+        if restricted and 0.78 <= r < 0.83:
+            r = 0.7   # a bulk delete would stop half-way at the restricted object (C06): select instead
 
         def pick_obj():
             """(entry class, id, most-derived class or None)"""
@@ -829,7 +1018,7 @@ def gen_history(rng, shape, nops):
         else:
             e, i, m = pick_obj()
             ops.append(['destroy', e, i])
-            if m is not None:
+            if m is not None and (root_of(shape, e), i) not in restricted:
                 root = root_of(shape, e)
                 del live[(root, i)]
                 dead.append((root, i))
@@ -950,7 +1139,9 @@ def run(ctx):
     for k in range(ncases):
         shape = shapes[0] if rng.random() < 0.4 else rng.choice(shapes)
         nops = rng.randint(3, 25)
-        cases.append((shape, gen_history(rng, shape, nops), rng.random() < 0.3))
+        q = rng.random()
+        flavour = 'plain' if q < 0.55 else 'refs' if q < 0.75 else 'two' if q < 0.92 else 'tx'
+        cases.append((shape, gen_history(rng, shape, nops, flavour), rng.random() < 0.3))
 
     all_lines = []
     results = []
@@ -974,12 +1165,17 @@ def run(ctx):
                  sample={'case': {'shape': desc['shape'], 'ops': [op_line(o) for o in ops][:12]},
                          'impl': [a for a in impl[1:8]]},
                  kind=('corpus+sweep' if idx < ncorpus else ('base-hierarchy' if shape == shapes[0] else 'random-tree'))
-                 + ('/cold-cache' if cold else '/warm-cache'))
+                 + ('/cold-cache' if cold else '/warm-cache')
+                 + ('/two-databases' if any(o[0] == 'conn' for o in ops) else '')
+                 + ('/transaction' if any(o[0] == 'begin' for o in ops) else '')
+                 + ('/references' if any(o[0] == 'addref' for o in ops) else ''))
         for t in kinds:
             ctx.count('op:' + t)
         for a in impl:
             if a in ('NotFound', 'NoAttr'):
                 ctx.count('answer:' + a)
+            elif a is not None and a.startswith('Integrity'):
+                ctx.count('answer:destroy refused (Integrity)')
         for step, kind, text in fails:
             if kind in reported and not ctx.deep:
                 continue
